@@ -97,8 +97,9 @@ Proof. destruct a, b; cbn; try discriminate; try reflexivity; intros H; apply N.
 
 Definition lit_entry_ok (e : list N * (kname * N)) : bool :=
   let w := fst e in
-  negb (self_delimiting w)
+  bare_prefix w
   || (negb (match w with [] => true | _ => false end)
+      && self_delimiting w
       && match prod_run w with
          | Some q => match prod_item q w with
                      | Some (EKey k m) => kname_eqb k (fst (snd e)) && (m =? snd (snd e))
@@ -127,13 +128,13 @@ Qed.
 
 (* every self-delimiting sequence of the library's key table decodes to the key the table names *)
 Theorem single_literal w :
-  lit_lookup prod_key_table w <> None -> self_delimiting w = true -> single (RLit w).
+  lit_lookup prod_key_table w <> None -> bare_prefix w = false -> single (RLit w).
 Proof.
-  intros Hl Hsd. destruct (lit_lookup prod_key_table w) as [[k m]|] eqn:E; [|contradiction].
+  intros Hl Hbp. destruct (lit_lookup prod_key_table w) as [[k m]|] eqn:E; [|contradiction].
   pose proof (lit_lookup_In _ _ _ E) as Hin.
   pose proof lit_table_ok as H. rewrite forallb_forall in H. specialize (H _ Hin).
-  unfold lit_entry_ok in H. cbn [fst snd] in H. rewrite Hsd in H. cbn [negb orb] in H.
-  apply andb_true_iff in H. destruct H as [Hne H].
+  unfold lit_entry_ok in H. cbn [fst snd] in H. rewrite Hbp in H. cbn [orb] in H.
+  rewrite !andb_true_iff in H. destruct H as [[Hne Hsd] H].
   unfold single, single_bytes, prod_denote, denote. cbn [print]. rewrite E.
   split; [destruct w; [discriminate| discriminate]|].
   unfold self_delimiting in Hsd. destruct (prod_run w) as [q|]; [|discriminate].
@@ -141,6 +142,12 @@ Proof.
   exists q. split; [reflexivity|]. split; [exact Ha|]. split; [exact Ht|].
   destruct (prod_item q w) as [[k' m'| | | | | | | | | | | | | ]|]; try discriminate.
   apply andb_true_iff in H. destruct H as [Hk Hm]. apply kname_eqb_eq in Hk. apply N.eqb_eq in Hm. subst. reflexivity.
+Qed.
+
+(* a single report leaves the automaton in a terminal accepting state *)
+Lemma single_self_delimiting r : single r -> self_delimiting (print r) = true.
+Proof.
+  intros (_ & q & Hr & Ha & Ht & _). unfold self_delimiting. rewrite Hr, Ha, Ht. reflexivity.
 Qed.
 
 (* xterm / fixterms modifier convention, checked on the whole table: CSI <n> ; <m> <final> names
